@@ -302,6 +302,16 @@ fn process(repo: &str, req: &Value, cache: &mut HashMap<String, syn::File>) -> V
     match found.item {
         FoundItem::Struct(s) => {
             let mut s2 = s.clone();
+            if let Some(ft) = req["field_types"].as_object() {
+                if let Fields::Named(n) = &mut s2.fields {
+                    for f in n.named.iter_mut() {
+                        let name = f.ident.as_ref().unwrap().to_string();
+                        if let Some(t) = ft.get(&name) {
+                            f.ty = syn::parse_str::<Type>(t.as_str().unwrap()).expect("field_types type");
+                        }
+                    }
+                }
+            }
             let derives = filter_derives(&s2.attrs, &keep);
             s2.attrs.clear();
             s2.vis = parse_quote!(pub);
@@ -438,6 +448,29 @@ fn emit_fn(out: &mut Value, req: &Value, sig: &Signature, block: &Block, impl_hd
                 }
             }
         }
+    }
+    // N16: item declarations inside the body (local enums/structs) are hoisted in front of the fn
+    let mut hoisted: Vec<Item> = vec![];
+    let mut kept = vec![];
+    for st in b.stmts.drain(..) {
+        match st {
+            Stmt::Item(Item::Enum(mut e)) => {
+                e.attrs.clear();
+                e.vis = parse_quote!(pub);
+                hoisted.push(Item::Enum(e));
+            }
+            Stmt::Item(Item::Struct(mut e)) => {
+                e.attrs.clear();
+                e.vis = parse_quote!(pub);
+                hoisted.push(Item::Struct(e));
+            }
+            other => kept.push(other),
+        }
+    }
+    b.stmts = kept;
+    if !hoisted.is_empty() {
+        n.log("N16-hoist-local-items", sig.ident.span());
+        out["hoisted"] = json!(unparse_items(hoisted));
     }
     n.visit_block_mut(&mut b);
     n.mark_loops(&mut b);
